@@ -5,6 +5,7 @@ package store
 
 import (
 	"bytes"
+	"context"
 	"errors"
 	"fmt"
 	"io"
@@ -53,6 +54,8 @@ type Store struct {
 	// fault plan
 	Absent       map[string]bool // reads of these CIDs fail
 	AbsentErr    error           // nil => ErrNotFound{cid}
+	IgnoreCtx    bool            // serve reads whatever context they are made under
+	CtxLost      int             // reads refused because the request context was missing or cancelled
 	FailReadAt   int             // k-th read-open (1-based) fails; 0 = never
 	FailWOpenAt  int
 	FailCommitAt int
@@ -182,6 +185,16 @@ func (s *Store) TotalBytes() int {
 
 // ResetLog clears the event log and the operation counters (not the blocks,
 // not the fault plan).
+type ctxKey struct{}
+
+// Ctx is the context of "the request" every monitor works under. The store
+// behaves like a request-scoped block source: a read made under a context
+// that does not descend from it (or that is cancelled) is refused.
+var Ctx = context.WithValue(context.Background(), ctxKey{}, "verif-request")
+
+// ErrCtxLost is returned for a read that does not carry the request context.
+var ErrCtxLost = errors.New("verif store: read made outside the caller's request context")
+
 func (s *Store) ResetLog() {
 	s.mu.Lock()
 	defer s.mu.Unlock()
@@ -220,10 +233,27 @@ func (s *Store) ReadCids() []string {
 	return out
 }
 
-func (s *Store) OpenRead(_ linking.LinkContext, l datamodel.Link) (io.Reader, error) {
+func (s *Store) OpenRead(lc linking.LinkContext, l datamodel.Link) (io.Reader, error) {
 	cl, ok := l.(cidlink.Link)
 	if !ok {
 		return nil, fmt.Errorf("verif store: not a cid link: %T", l)
+	}
+	if !s.IgnoreCtx {
+		// a request-scoped block source: it serves only reads made under the caller's context
+		if lc.Ctx == nil || lc.Ctx.Value(ctxKey{}) == nil {
+			s.mu.Lock()
+			s.CtxLost++
+			s.logf("read", cl.Cid, 0, ErrCtxLost)
+			s.mu.Unlock()
+			return nil, ErrCtxLost
+		}
+		if err := lc.Ctx.Err(); err != nil {
+			s.mu.Lock()
+			s.CtxLost++
+			s.logf("read", cl.Cid, 0, err)
+			s.mu.Unlock()
+			return nil, err
+		}
 	}
 	if s.OnRead != nil {
 		s.OnRead(cl.Cid)
@@ -415,28 +445,65 @@ func ChunkedEncoders(ls *ipld.LinkSystem, max int) *ipld.LinkSystem {
 // block with hdr bytes (a length-and-checksum style frame), as a caller with
 // its own at-rest format for leaves would.
 func FramedRawEncoders(ls *ipld.LinkSystem, hdr int) *ipld.LinkSystem {
+	return StyledEncoders(ls, hdr, 0)
+}
+
+type plainReader struct{ r io.Reader }
+
+func (p plainReader) Read(b []byte) (int, error) { return p.r.Read(b) }
+
+// StyledEncoders wraps every encoder of ls so that it hands its output to the
+// writer the way callers' encoders do: style 0 with Write, 1 with
+// io.WriteString, 2 with io.Copy from a source that has no WriteTo (a pipe, a
+// limited reader), 3 with io.Copy from a bytes.Reader. Raw blocks are
+// additionally prefixed with hdr frame bytes when hdr > 0.
+func StyledEncoders(ls *ipld.LinkSystem, hdr, style int) *ipld.LinkSystem {
 	orig := ls.EncoderChooser
 	ls.EncoderChooser = func(lp datamodel.LinkPrototype) (codec.Encoder, error) {
 		enc, err := orig(lp)
 		if err != nil {
 			return nil, err
 		}
-		if clp, ok := lp.(cidlink.LinkPrototype); !ok || clp.Codec != cid.Raw {
-			return enc, nil
+		isRaw := false
+		if clp, ok := lp.(cidlink.LinkPrototype); ok && clp.Codec == cid.Raw {
+			isRaw = true
 		}
 		return func(n datamodel.Node, w io.Writer) error {
-			b, err := n.AsBytes()
-			if err != nil {
+			var body bytes.Buffer
+			if isRaw && hdr > 0 {
+				b, err := n.AsBytes()
+				if err != nil {
+					return err
+				}
+				frame := make([]byte, hdr)
+				for i := range frame {
+					frame[i] = byte(len(b) >> (8 * uint(i%4)))
+				}
+				body.Write(frame)
+				body.Write(b)
+			} else if err := enc(n, &body); err != nil {
 				return err
 			}
-			frame := make([]byte, hdr)
-			for i := range frame {
-				frame[i] = byte(len(b) >> (8 * uint(i%4)))
-			}
-			if _, err := w.Write(frame); err != nil {
+			all := body.Bytes()
+			split := len(all) / 3
+			switch style {
+			case 1:
+				if _, err := io.WriteString(w, string(all[:split])); err != nil {
+					return err
+				}
+				_, err := io.WriteString(w, string(all[split:]))
+				return err
+			case 2:
+				_, err := io.Copy(w, plainReader{bytes.NewReader(all)})
+				return err
+			case 3:
+				_, err := io.Copy(w, bytes.NewReader(all))
 				return err
 			}
-			_, err = w.Write(b)
+			if _, err := w.Write(all[:split]); err != nil {
+				return err
+			}
+			_, err := w.Write(all[split:])
 			return err
 		}, nil
 	}
